@@ -159,8 +159,20 @@ def need_eq0(store, lin, desc, node=None, abstract=None):
     return [Failure(desc, node=node, neg=[[lin - 1], [-lin - 1]], abstract=abstract)]
 
 
-def definite(desc, node=None, abstract=None):
-    """A structural failure: violated whenever the path is feasible."""
+_OPAQUE_REPR = None
+
+
+def definite(desc, node=None, abstract=None, firm=False):
+    """A structural failure: violated whenever the path is feasible.
+    A failure whose description shows an opaque abstract value (<any:..>, <unknown:..>, a generator...) means the rule did
+    not recognise the value it was looking at: unless the rule says the opacity itself is the point (firm=True), that is
+    "not decided", never a violation."""
+    global _OPAQUE_REPR
+    if _OPAQUE_REPR is None:
+        import re
+        _OPAQUE_REPR = re.compile(r'<(any|unknown|elem|iter|generator|method|star|float):|<unknown|<generator |<iter ')
+    if not firm and os.environ.get('CARDVERIF_LAX_DEF') != '1' and _OPAQUE_REPR.search(desc):
+        return soft('(unrecognised value) ' + desc, node=node, abstract=abstract)
     return Failure(desc, node=node, neg=[[]], definite=True, abstract=abstract)
 
 
